@@ -80,9 +80,17 @@ def cases(rng, tier, shard, nshards):
             lines = d.lines()
             rng.shuffle(lines)
             yield {"k": "levels", "version": d.version, "lines": lines, "canonical": canonical}
-        elif r < 0.55:
+        elif r < 0.50:
             lines = HG.hostile_doc(rng)
             yield {"k": "mono", "lines": lines, "version": rng.choice([None, "gfa1", "gfa2"])}
+        elif r < 0.58:
+            # values added to a header tag through Header.add (one value, or several already)
+            dt, goods, bads = rng.choice([("i", [5, -3], ["a", 1.5, [1]]), ("f", [2.5], ["x", [1]]), ("Z", ["abc"], ["a\tb", 5]),
+                                          ("J", [[1], {"a": 2}], ["x\ty"]), ("A", ["q"], ["ab", 7])])
+            valid = rng.random() < 0.5
+            yield {"k": "header-add", "dt": dt, "start": rng.choice([1, 2]), "value": rng.choice(goods if valid else bads),
+                   "seed_values": goods, "valid": valid, "explicit": rng.random() < 0.6, "vlevel": rng.randrange(4),
+                   "connected": rng.random() < 0.5}
         elif r < 0.62:
             # a new tag: assignments which are refused, then a valid value of another class
             yield {"k": "assign-seq", "line": rng.choice([f[0] for f in FIELDS if not f[0].startswith("#")]), "tag": V.tagname(rng),
@@ -149,8 +157,55 @@ def run_assign_seq(case, ctx):
             return
 
 
+def run_header_add(case, ctx):
+    lvl, dt = case["vlevel"], case["dt"]
+    if case["connected"]:
+        h = gfapy.Gfa(vlevel=lvl).header
+    else:
+        h = gfapy.Line("H", vlevel=lvl)
+    for i in range(case["start"]):
+        r0 = call(ctx, "header.add (first values)", h.add, "xx", case["seed_values"][i % len(case["seed_values"])], dt)
+        if not r0.ok:
+            return
+    value = case["value"]
+    cell = "header.add('xx', %r%s) after %d value(s) of datatype %s (level %d, %s)" % (
+        value, ", %r" % dt if case["explicit"] else "", case["start"], dt, lvl, "Gfa header" if case["connected"] else "stand-alone H line")
+    r = call(ctx, "header.add", (lambda: h.add("xx", value, dt)) if case["explicit"] else (lambda: h.add("xx", value)))
+    ctx.count("assignments")
+    ctx.count("header_add_assignments")
+    ctx.add("assign_cells", "header-add/%s/%s/%d/%s" % (dt, "valid" if case["valid"] else "invalid", lvl, "dt" if case["explicit"] else "nodt"))
+    ctx.nontriv(["header-add", dt, repr(value), case["start"], case["explicit"], lvl, case["connected"]])
+    if case["valid"]:
+        if not r.ok:
+            ctx.violation("valid-assignment-refused/header-add/%s/level%d/%s" % (dt, lvl, r.cls()), "%s: %s" % (cell, str(r.exc)[:200]))
+            return
+        for what, fn in (("validate", h.validate), ("str", lambda: str(h)), ("field_to_s", lambda: h.field_to_s("xx", True))):
+            rr = call(ctx, what, fn)
+            if not rr.ok or (what == "str" and "# INVALID" in rr.value):
+                ctx.violation("valid-assignment-rejected-later/header-add/%s/%s/level%d" % (dt, what, lvl), "%s: %s" % (cell, rr.cls() if not rr.ok else rr.value))
+                return
+        return
+    if r.ok and lvl >= 3:
+        ctx.violation("invalid-assignment-not-reported-at-level-3/header-add/%s" % dt, cell)
+        return
+    if not r.ok:
+        ctx.count("invalid_refused_at_assignment")
+        return
+    vl = call(ctx, "validate", h.validate)
+    ctx.count("invalid_validated")
+    if vl.ok:
+        ctx.violation("invalid-value-passes-validation/header-add/%s" % dt, cell)
+        return
+    if lvl >= 2:
+        w = call(ctx, "str", str, h)
+        if w.ok and "# INVALID" not in w.value:
+            ctx.violation("invalid-value-written-at-level-2/header-add/%s" % dt, "%s: %r" % (cell, w.value))
+
+
 def run(case, ctx):
     k = case["k"]
+    if k == "header-add":
+        return run_header_add(case, ctx)
     if k == "assign-seq":
         return run_assign_seq(case, ctx)
     if k == "levels":
